@@ -234,6 +234,9 @@ func c22(c *vc.Ctx) {
 			if t.hasCmd() {
 				c.Count("cmdsubst_cases", 1)
 			}
+			if !c23IsASCII(strings.ReplaceAll(t.V, "é", "")) {
+				c.Count("low_byte_collision_value_cases", 1)
+			}
 			if len(t.Parts) == maxParts && t.IFS == 4 {
 				c.Sample(map[string]any{"ifs": c22IFS[t.IFS].Val, "word": word, "v": t.V, "interp": want})
 			}
